@@ -9,3 +9,6 @@ Proof. exact (Cube.C07_cube a). Qed.
 Theorem C07_infer m v : robdd m -> (binfer m v = (true, true) <-> forall s, beval s m = true -> s v = true).
 Proof. exact (Cube.C07_infer m v). Qed.
 Print Assumptions C07_unsat. Print Assumptions C07_cube. Print Assumptions C07_infer.
+
+Example C07_instance : robdd (Nd (Nd F 1 T) 0 (Nd T 1 F)) /\ bmodel (Nd (Nd F 1 T) 0 (Nd T 1 F)) = Nd (Nd F 1 T) 0 F /\ binfer (Nd (Nd F 1 T) 0 F) 0 = (true, true).
+Proof. split; [split; cbn; repeat split; auto; discriminate|]. split; vm_compute; reflexivity. Qed.
